@@ -91,8 +91,11 @@ class _InMemoryConsumer(ConsumerT):
         soonest = min(self._queue.delayed)
 
         if len(self._queue.delayed[soonest]) == 1:
-            return self._queue.delayed.pop(soonest)[0]
-        return self._queue.delayed[soonest].pop(0)
+            msg = self._queue.delayed.pop(soonest)[0]
+        else:
+            msg = self._queue.delayed[soonest].pop(0)
+        self._queue.taken_from[msg.key.id_] = soonest
+        return msg
 
     def __consume_dead(self) -> Message | None:
         if not self._queue.dead:
